@@ -18,6 +18,10 @@ pub struct M13 {
 }
 const SHAPES: [&str; 5] = ["small<=2000", "one-packet>2000", "2-packets", "3-packets", "6-packets"];
 const BUFS: [u64; 2] = [2304, 8192];
+/// per pass, after the rectangular enumeration: 5 shapes x 2 buffers x 16 patterns over the first 4
+/// attempts x {62, 63, 64} descriptors in total (platform level) - the capacity edge, where the
+/// fall-back to a fragmented send needs one descriptor more than the first attempt did
+const EXTRA: u64 = 5 * 2 * 16 * 3;
 
 fn shape_len(shape: usize, first: usize, follow: usize) -> usize {
     match shape {
@@ -30,7 +34,7 @@ fn shape_len(shape: usize, first: usize, follow: usize) -> usize {
 }
 
 /// The same send at the platform level: data + 2 channel descriptors + 1 region, exact lists compared.
-fn platform_run(len: usize, out: &mut Outcome) -> Outcome {
+fn platform_run(len: usize, nchan: usize, out: &mut Outcome) -> Outcome {
     use ipc_channel::platform::{self, OsIpcChannel, OsIpcSharedMemory};
     let (tx, rx) = platform::channel().unwrap();
     let region_bytes: Vec<u8> = (0..5000u32).map(|i| (i * 7 + 3) as u8).collect();
@@ -40,12 +44,12 @@ fn platform_run(len: usize, out: &mut Outcome) -> Outcome {
     sim::spawn("sender", Some(2), move || {
         let mut chans = vec![];
         let mut keep = vec![];
-        for _ in 0..2 {
+        for _ in 0..nchan {
             let (t, r) = platform::channel().unwrap();
             chans.push(OsIpcChannel::Sender(t));
             keep.push(r);
         }
-        hist::log("send.inv", 0, data.len() as i64, 2, "");
+        hist::log("send.inv", 0, data.len() as i64, nchan as i64, "");
         let r = tx.send(&data, chans, vec![OsIpcSharedMemory::from_bytes(&rb)]);
         let fired = sim::g().stats.f_enobufs;
         sim::clear_faults();
@@ -98,8 +102,8 @@ fn platform_run(len: usize, out: &mut Outcome) -> Outcome {
             if e.b as usize != sent.len() {
                 out.viol("shortened:recv", format!("platform level: sent {} bytes, received {}", sent.len(), e.b));
             }
-            if e.c != (2 << 8) | 1 {
-                out.viol("descriptor-list-altered:recv", format!("platform level: sent 2 channels + 1 region, received {} channels + {} regions ({} refusals fired)", e.c >> 8, e.c & 0xff, fired));
+            if e.c != ((nchan as i64) << 8) | 1 {
+                out.viol("descriptor-list-altered:recv", format!("platform level: sent {} channels + 1 region, received {} channels + {} regions ({} refusals fired)", nchan, e.c >> 8, e.c & 0xff, fired));
             }
             if e.s == "REGION-DIFFERS" {
                 out.viol("altered:recv", "platform level: region contents differ".into());
@@ -131,7 +135,8 @@ fn platform_run(len: usize, out: &mut Outcome) -> Outcome {
     out.probe("send_ok", ok.is_some() as u64);
     out.probe("send_err", err.is_some() as u64);
     out.probe("platform_level_cases", 1);
-    out.sample = json!({"level": "platform", "len": len, "refusals_fired": fired, "send_ok": ok.is_some()});
+    out.probe("at_capacity_cases", (nchan > 2) as u64);
+    out.sample = json!({"level": "platform", "len": len, "channels": nchan, "refusals_fired": fired, "send_ok": ok.is_some()});
     std::mem::take(out)
 }
 
@@ -147,19 +152,30 @@ impl Scenario for C13S {
     }
     fn count(&self, tier: Tier, _variant: &str) -> u64 {
         // 5 shapes x 3 attachment modes x 2 buffer sizes x 1024 ENOBUFS patterns (x schedules)
-        let base = 5 * 3 * 2 * 1024;
+        let base = 5 * 3 * 2 * 1024 + EXTRA;
         match tier {
             Tier::Quick => base * 4,
             Tier::Thorough => base * 160,
         }
     }
     fn rule(&self) -> &'static str {
-        "exhaustive enumeration: case i = (ENOBUFS pattern = every subset of the first 10 transmission attempts of one send) x (shape: <=2000 B one packet, >2000 B one packet, 2, 3, 6 packets) x (no attachments | 2 senders + 1 region through the typed API | the same through the platform-level API, where the exact descriptor list is compared) x (SO_SNDBUF request 2304 | 8192); quick runs the whole enumeration under 4, thorough under 160 different seeded receiver/sender schedules; non-trivial = at least one refusal actually fired inside the send under test; distinct = distinct (pattern, shape, attachments, buffer, schedule hash)"
+        "exhaustive enumeration: case i = (ENOBUFS pattern = every subset of the first 10 transmission attempts of one send) x (shape: <=2000 B one packet, >2000 B one packet, 2, 3, 6 packets) x (no attachments | 2 senders + 1 region through the typed API | the same through the platform-level API, where the exact descriptor list is compared) x (SO_SNDBUF request 2304 | 8192), plus the capacity edge (every pattern over the first 4 attempts x shape x buffer x 62 | 63 | 64 descriptors in total, platform level); quick runs the whole enumeration under 4, thorough under 160 different seeded receiver/sender schedules, every second pass with a third thread that keeps opening and closing channels (descriptor numbers are recycled under the sender's feet); non-trivial = at least one refusal actually fired inside the send under test; distinct = distinct (pattern, shape, attachments, buffer, schedule hash)"
     }
     fn gen(&self, seed: u64, idx: u64, _tier: Tier, _variant: &str) -> Value {
         let base = 5 * 3 * 2 * 1024u64;
-        let rep = idx / base;
-        let i = idx % base;
+        let rep = idx / (base + EXTRA);
+        let i = idx % (base + EXTRA);
+        if i >= base {
+            let j = i - base;
+            let (mask, shape, buf, nchan) = (j % 16, (j / 16) % 5, BUFS[((j / 80) % 2) as usize], 61 + (j / 160) % 3);
+            let mut r = Rng::stream(seed, idx.wrapping_mul(2654435761).wrapping_add(0xC13));
+            let mut sim = sim_json(&mut r, seed ^ idx.wrapping_mul(0x9E37));
+            sim["sndbuf"] = json!(buf);
+            let faults: Vec<Value> = (0..4).filter(|b| mask >> b & 1 == 1).map(|b| json!({"k": "txerr", "pid": 2, "nth": b, "errno": libc::ENOBUFS})).collect();
+            sim["faults"] = json!(faults);
+            let (first, follow) = predict_frag(Some(buf), false);
+            return json!({"sim": sim, "shape": shape, "len": shape_len(shape as usize, first, follow), "att": true, "platform": true, "nchan": nchan, "mask": mask, "noise": rep % 2 == 1});
+        }
         let mask = i % 1024;
         let shape = (i / 1024) % 5;
         // attachments: 0 = none, 1 = senders + region through the typed API, 2 = the same at the
@@ -176,7 +192,7 @@ impl Scenario for C13S {
         let faults: Vec<Value> = (0..10).filter(|b| mask >> b & 1 == 1).map(|b| json!({"k": "txerr", "pid": 2, "nth": b, "errno": libc::ENOBUFS})).collect();
         sim["faults"] = json!(faults);
         let (first, follow) = predict_frag(Some(buf), false);
-        json!({"sim": sim, "shape": shape, "len": shape_len(shape as usize, first, follow), "att": att, "platform": att_mode == 2, "mask": mask})
+        json!({"sim": sim, "shape": shape, "len": shape_len(shape as usize, first, follow), "att": att, "platform": att_mode == 2, "mask": mask, "noise": rep % 2 == 1})
     }
     fn died(&self, how: &str, _p: &str) -> Option<Violation> {
         if how == "step-budget" {
@@ -189,8 +205,27 @@ impl Scenario for C13S {
         start_sim(p);
         let len = p["len"].as_u64().unwrap_or(100).min(1 << 20) as usize;
         let with_att = p["att"].as_bool().unwrap_or(false);
+        if p["noise"].as_bool().unwrap_or(false) {
+            // another thread of the program opens and closes descriptors all the while: a retry that
+            // names a descriptor number it no longer owns picks up one of these
+            sim::spawn("noise", None, move || {
+                let mut held = vec![];
+                for i in 0..25 {
+                    let c = ipc::channel::<u32>().unwrap();
+                    sim::yield_now();
+                    // some are closed again at once, some stay open for the rest of the run (whoever
+                    // wrongly adopts one of those waits on it for ever)
+                    if i % 3 == 0 {
+                        drop(c);
+                    } else {
+                        held.push(c);
+                    }
+                }
+                std::mem::forget(held);
+            });
+        }
         if p["platform"].as_bool().unwrap_or(false) {
-            return platform_run(len, &mut out);
+            return platform_run(len, p["nchan"].as_u64().unwrap_or(2).min(80) as usize, &mut out);
         }
         let (tx, rx) = ipc::channel::<M13>().unwrap();
         let mut sides: Vec<IpcReceiver<u32>> = vec![];
